@@ -170,6 +170,80 @@ def dual_quadric_stream(ctx, n, prefix="C07"):
                          r[1:3], replay=[desc])
 
 
+def axes_stream(ctx, n, prefix="C07"):
+    """collection axes of transformation and object that differ in number: (A) transformations of shape (2, 1) on collections of
+    coplanar lines of space of shape (m,): meet / join commute position by position over the (2, m) grid; (B) transformations of shape
+    (k,) — also identity(dim, (k,)) and t**0 — on line / plane collections of shape (a, b, k): position (i, j, l) is T[l] applied
+    to X[i, j, l], the identity changes nothing, (S*T)*X = S*(T*X)"""
+    import geometer as g
+    rng = ctx.rng
+    def tmat(dim):
+        while True:
+            mm = np.array([[float(rng.randint(-2, 2)) for _ in range(dim + 1)] for _ in range(dim + 1)])
+            if abs(np.linalg.det(mm)) > 0.5:
+                return mm
+    for k in range(n):
+        if k % 2 == 0:
+            m = rng.randint(2, 4)
+            o = np.array([float(rng.randint(-2, 2)) for _ in range(3)])
+            def lines():
+                out = []
+                while len(out) < m:
+                    d = np.array([float(rng.randint(-3, 3)) for _ in range(3)])
+                    if d.any():
+                        out.append(np.asarray(g.Line(g.Point(*o), g.Point(*(o + d))).array))
+                return out
+            la, lb = lines(), lines()
+            if any(np.linalg.matrix_rank(np.stack([x.ravel(), y.ravel()])) < 2 for x, y in zip(la, lb)):
+                continue
+            A, B = g.LineCollection(np.stack(la)), g.LineCollection(np.stack(lb))
+            mats = [tmat(3), tmat(3)]
+            T = g.TransformationCollection(np.stack(mats).reshape(2, 1, 4, 4))
+            op = rng.choice(["meet", "join"])
+            f = g.meet if op == "meet" else g.join
+            desc = f"{op}(T*a, T*b) with T of shape (2,1), a, b coplanar lines through {o.tolist()} of shape ({m},); T={[x.tolist() for x in mats]}"
+            ctx.case(desc)
+            ctx.count(f"axes:transformed-{op}")
+            r = call_impl(lambda: (f(T * A, T * B), T * f(A, B)))
+            ok = r[0] == "ok" and np.asarray(r[1][0].array).shape[:2] == (2, m) and np.asarray(r[1][1].array).shape[:2] == (2, m)
+            if ok:
+                x, y = np.asarray(r[1][0].array), np.asarray(r[1][1].array)
+                ok = all(proj_close_nn(x[i, j], y[i, j], 1e-7) for i in range(2) for j in range(m))
+            if not ok:
+                ctx.disagree(f"{prefix}:axes:transformed-{op}", desc, "equal at every position of the (2, m) grid",
+                             r[1:3] if r[0] != "ok" else (np.asarray(r[1][0].array).shape, np.asarray(r[1][1].array).shape), replay=[desc])
+        else:
+            a, b, kk = rng.choice([(2, 2, 2), (2, 3, 2), (3, 2, 3), (2, 2, 3)])
+            dim = rng.choice([2, 3])
+            kind = rng.choice(["line", "plane"]) if dim == 3 else "line"
+            arr = np.array([[float(rng.randint(-3, 3)) for _ in range(dim + 1)] for _ in range(a * b * kk)])
+            arr[np.all(arr[:, :-1] == 0, axis=1), 0] = 1.0
+            X = (g.PlaneCollection if (dim == 3) else g.LineCollection)(arr.reshape(a, b, kk, dim + 1))
+            mats = [tmat(dim) for _ in range(kk)]
+            T = g.TransformationCollection(np.stack(mats))
+            S = g.TransformationCollection(np.stack([tmat(dim) for _ in range(kk)]))
+            desc = f"transformations of shape ({kk},) on a {'plane' if dim == 3 else 'line'} collection of shape ({a},{b},{kk}) dim={dim}"
+            ctx.case(desc)
+            ctx.count("axes:abk")
+            def run():
+                I = g.identity(dim, (kk,))
+                return (T * X, I * X, (T ** 0) * X, (S * T) * X, S * (T * X))
+            r = call_impl(run)
+            ok = r[0] == "ok" and all(np.asarray(z.array).shape == (a, b, kk, dim + 1) for z in r[1])
+            if ok:
+                tx, ix, px, stx, s_tx = (np.asarray(z.array) for z in r[1])
+                xa = np.asarray(X.array)
+                for i in range(a):
+                    for j in range(b):
+                        for l in range(kk):
+                            single = np.asarray((g.Transformation(mats[l]) * type(X[i, j, l])(xa[i, j, l])).array)
+                            ok = ok and proj_close_nn(tx[i, j, l], single, 1e-8) and proj_close_nn(ix[i, j, l], xa[i, j, l], 1e-9) \
+                                and proj_close_nn(px[i, j, l], xa[i, j, l], 1e-9) and proj_close_nn(stx[i, j, l], s_tx[i, j, l], 1e-7)
+            if not ok:
+                ctx.disagree(f"{prefix}:axes:abk", desc, "position (i,j,l) = T[l] applied to X[i,j,l]; identity; associativity",
+                             r[1:3] if r[0] != "ok" else [np.asarray(z.array).shape for z in r[1]], replay=[desc])
+
+
 def crossratio_stream(ctx, n):
     import geometer as g
     from fractions import Fraction
@@ -316,6 +390,7 @@ def edited_stream(ctx, n):
 
 
 def correspondence(ctx):
+    axes_stream(ctx, ctx.budget(40, 400))
     dual_quadric_stream(ctx, ctx.budget(45, 500))
     edited_stream(ctx, ctx.budget(20, 200))
     commute_stream(ctx, ctx.budget(30, 500))
